@@ -74,6 +74,9 @@ class ExprGen:
         if isinstance(t, GraphQLInputObjectType):
             return {k: self.arg_value(f.type) for k, f in t.fields.items() if is_required_input_field(f)}
         n = self.tok()
+        if self.rng.random() < 0.15:  # given but falsy: still a value, never the same as omitted
+            self.feats.add("arg.falsy")
+            return {"Int": 0, "Float": 0.0, "String": "", "ID": "", "Boolean": False}.get(t.name, "")
         return {"Int": 100 + n, "Float": n + 0.5, "String": "arg#%d" % n, "ID": "id#%d" % n, "Boolean": n % 2 == 0}.get(t.name, "cs#%d" % n)
 
     def as_serialized(self, t, v):
